@@ -557,6 +557,7 @@ func widePars() []int {
 }
 
 func progsC09(t *testing.T) {
+	progsForkCancel(t, "C09")
 	progsGoexit(t, "C09")
 	progsPreCancel(t, "C09")
 	progsSlow(t, "C09")
@@ -871,6 +872,12 @@ func init() {
 }
 
 func progsC12(t *testing.T) {
+	if common.Batch == 3%common.NBatch {
+		joinEarlyClose("C12", common.Pick(60_000, 1_000_000), false)
+	}
+	if common.Batch == 4%common.NBatch {
+		joinEarlyClose("C12", common.Pick(30_000, 300_000), true)
+	}
 	progsJoinBulky(t, "C12")
 	progsJoinCancel(t, "C12")
 	progsHuge(t, "C12")
@@ -921,6 +928,9 @@ func init() {
 		defer cancel()
 		ops, iv := c.N, time.Duration(c.Tick)
 		total := ops + ops/2 + 3
+		if c.Mode == "long" {
+			total = ops * c.Delay // Delay = number of batches
+		}
 		if stopAt >= 0 {
 			total = ops*(c.Delay/2+3) + 50
 		}
@@ -969,6 +979,7 @@ func init() {
 }
 
 func progsC13(t *testing.T) {
+	progsDegenerate(t, "C13")
 	if common.Batch == 1%common.NBatch {
 		realTimeThrottle("C13", 1, common.Pick(3000, 12000), time.Millisecond, false)
 	}
@@ -996,6 +1007,15 @@ func progsC13(t *testing.T) {
 	// other round rates
 	for _, ops := range []int{1500, 2500, 7500, 12345, 1025 * 3, 5000} {
 		runProg(t, "C13", &caseT{Stage: "prog/throttle-steady", N: ops, Cap: 0, Tick: int64(time.Second)})
+	}
+	// intervals of a few nanoseconds up to a microsecond that the rate does not divide, thousands of batches
+	for _, iv := range []time.Duration{7, 37, 100, time.Microsecond, 100 * time.Microsecond} {
+		for _, ops := range []int{3, 6, 7, 11} {
+			if time.Duration(ops) > iv {
+				continue
+			}
+			runProg(t, "C13", &caseT{Stage: "prog/throttle-steady", N: ops, Cap: 0, Mode: "long", Delay: 6000, Tick: int64(iv)})
+		}
 	}
 	// the context's own deadline falls at every half interval
 	for _, ops := range []int{1, 2, 3, 7} {
@@ -1047,6 +1067,7 @@ func callerOwnsFill(s []<-chan int, g int) {
 // ---------------------------------------------------------------- C06
 
 func progsC06(t *testing.T) {
+	progsDegenerate(t, "C06")
 	progsGoexit(t, "C06")
 	progsJoinCancel(t, "C06")
 	progsPreCancel(t, "C06")
